@@ -1,4 +1,92 @@
-From Coq Require Import ZArith List.
+(* C19  File cache: failed or interrupted downloads never poison the cache.
+   Same model as C18 (OSU.Model.FileCache), with fault outcomes as inputs of each request. *)
+From Coq Require Import ZArith List Bool.
 From OSU.Model Require Import FileCache.
-Theorem placeholder_init_empty19 : forall m p a, entries (init m p a) = nil.
-Proof. reflexivity. Qed.
+From OSU.Proofs Require Import FileCacheBase FileCacheInv FileCacheGet FileCacheHist FileCacheReq FileCacheFaults.
+Import ListNotations.
+Open Scope Z_scope.
+
+(* After any history - including any fault at any download position of any request and the death
+   of the process in the middle of a download - no cache-named file on disk is partial: every one
+   is complete and holds bytes of its own resource.  (Partial bytes only ever exist under the
+   temporary name, which is not a cache name.) *)
+Theorem no_partial_under_cache_name : forall m p a ops n f, 0 <= m ->
+  is_cache_name n = true -> dfind (disk (run (init m p a) ops)) n = Some f ->
+  is_complete (fcontent f) = true.
+Proof.
+  intros m p a ops n f Hm Hc Hf.
+  exact (w_complete _ (proj1 (inv_all_histories m p a ops Hm)) n f Hc Hf).
+Qed.
+
+(* hence reopening the cache on the same directory (after a crash at any point) registers only
+   complete files, each holding the bytes of its own resource *)
+Theorem reopen_serves_only_complete : forall m p a ops b n, 0 <= m ->
+  let s := fst (step (run (init m p a) ops) (Reopen b)) in
+  In n (entries s) ->
+  exists f, dfind (disk s) n = Some f /\ is_complete (fcontent f) = true /\
+            (forall r k, n = CName r k -> content_res (fcontent f) = Some r).
+Proof.
+  intros m p a ops b n Hm s Hin.
+  pose proof (step_Inv _ (Reopen b) (inv_all_histories m p a ops Hm)) as [HW _]. fold s in HW.
+  destruct (w_entries_on_disk s HW n Hin) as [Hc He]. apply dexists_true in He. destruct He as [f Hf].
+  exists f. split; [assumption|]. split; [exact (w_complete s HW n f Hc Hf)|].
+  intros r k ->. exact (w_owner s HW r k f Hf).
+Qed.
+
+(* a failed fetch (missing object, I/O error before or during the write, post-processing error)
+   of an uncached URI leaves neither an entry nor a file under its cache name ... *)
+Theorem failed_uri_not_registered : forall s q,
+  Inv s -> alive s = true -> ~ In (q_name q) (entries s) -> download_fails q ->
+  ~ In (q_name q) (entries (fst (get s [q]))) /\ dfind (disk (fst (get s [q]))) (q_name q) = None.
+Proof. exact failed_uri_not_registered. Qed.
+
+(* ... so the next request for it contacts the resource again *)
+Theorem miss_is_fetched : forall s q,
+  ~ In (q_name q) (entries s) -> fetched (fst (get s [q])) = q_res q :: fetched s.
+Proof. exact miss_is_fetched. Qed.
+
+(* an entry rejected by its validation directive is removed (file and entry) and re-fetched *)
+Theorem rejected_validation_refetched : forall s q,
+  In (q_name q) (entries s) -> (q_validate q = Some VReject \/ q_validate q = Some VIOError) ->
+  fetched (fst (get s [q])) = q_res q :: fetched s /\
+  exists s1, classify s [q] = Some (s1, [q]) /\ dfind (disk s1) (q_name q) = None /\ ~ In (q_name q) (entries s1).
+Proof. exact rejected_validation_refetched. Qed.
+
+(* missing-file tolerant mode omits the URI, strict mode raises *)
+Theorem tolerant_omits : forall s q,
+  ~ In (q_name q) (entries s) -> q_out q = DNotFound -> allow s = true -> snd (get s [q]) = Paths [].
+Proof. exact tolerant_omits. Qed.
+
+Theorem strict_raises : forall s q,
+  ~ In (q_name q) (entries s) -> q_out q = DNotFound -> allow s = false -> snd (get s [q]) = Raised.
+Proof. exact strict_raises. Qed.
+
+(* all other requested and previously cached URIs remain intact: whatever the outcome of the
+   request (returned, raised, crashed), a file it does not name is unchanged or evicted, and the
+   invariant (complete files, entries = cache files, size bound) still holds afterwards *)
+Theorem others_intact : forall s l n,
+  W s -> ~ In n (map q_name l) -> ~ In n (map q_tmp l) ->
+  dfind (disk (fst (get s l))) n = dfind (disk s) n \/ dfind (disk (fst (get s l))) n = None.
+Proof. exact get_frame. Qed.
+
+Theorem request_preserves_invariant : forall s l, Inv s -> alive s = true -> Inv (fst (get s l)).
+Proof. exact get_Inv. Qed.
+
+(* what a returning request hands out is registered, complete and belongs to its resource *)
+Theorem returned_paths_are_complete : forall s l s' ps,
+  Inv s -> alive s = true -> NoDup (map q_name l) -> get s l = (s', Paths ps) ->
+  forall n, In n ps ->
+    In n (map q_name l) /\ In n (entries s') /\
+    exists f, dfind (disk s') n = Some f /\ is_complete (fcontent f) = true /\
+              (forall r k, n = CName r k -> content_res (fcontent f) = Some r) /\
+              clock s <= ftime f.
+Proof. exact get_returned_paths. Qed.
+
+(* non-vacuity: a crash in the middle of the second download, then reopen: the completed first
+   download is adopted, the partial one is not, and the partial bytes sit under the temporary name *)
+Example crash_then_reopen :
+  let s := run (init 10000 false true)
+               [Get [mkreq 1 0 None None (DOk 5); mkreq 0 0 None None (DCrash 1)]; Reopen true] in
+  entries s = [CName 1 0] /\ dfind (disk s) (CName 0 0) = None /\
+  (exists f, dfind (disk s) (TName 0 0) = Some f /\ fcontent f = Half 0 1) /\ alive s = true.
+Proof. vm_compute. repeat split; try reflexivity. eexists. split; reflexivity. Qed.
